@@ -17,7 +17,7 @@
 (*       /new, /apply, set_python_instance_state, generators drained at    *)
 (*       the end of the document.                                          *)
 (* TLC checks L => H on every graph of the bounded space.  The code has    *)
-(* six places where it deviates from the statement (section DEVIATIONS);  *)
+(* seven places where it deviates from the statement (section DEVIATIONS);  *)
 (* L models each as it is, with a named switch that models the repair, so  *)
 (* that TLC can check (a) the repaired design refines H everywhere and     *)
 (* (b) every deviation of the design as it is is explained by these        *)
@@ -35,8 +35,8 @@ CONSTANTS MaxObjs,      \* objects per graph
 H == INSTANCE H_Reduce
 
 AllShapes == {"list", "dict", "tuple", "set", "P", "PA", "S", "SD", "GS", "GT", "GV", "GC", "GL", "NA", "NT", "R2", "R3", "RL", "RD",
-              "CR", "ML", "MD", "MS", "OD"}
-AllFixes  == {"deepreg", "slotsnone", "falsystate", "nonestate", "emptytuple", "latefill"}
+              "CR", "ML", "MD", "MS", "OD", "MO", "XS"}
+AllFixes  == {"deepreg", "slotsnone", "falsystate", "nonestate", "emptytuple", "latefill", "scalarsub"}
 
 Range(s) == {s[i] : i \in DOMAIN s}
 Min(a, b) == IF a < b THEN a ELSE b
@@ -118,10 +118,15 @@ ReduceOf(o) ==
     [] o.s = "MD" -> Rd(TRUE, "MD", <<>>, DictOrNone(o.a), <<>>, Keyed(o.p))
     [] o.s = "MS" -> Rd(FALSE, "MS", <<VL(Atoms(o.p))>>, VD(Attrs(o.a)), <<>>, <<>>)
     [] o.s = "OD" -> Rd(FALSE, "OD", <<>>, VNone, <<>>, Keyed(o.p))                \* pickle's view; yaml has its own representer
+    \* subclasses of types that have their own representer entry go through represent_object like everything else
+    [] o.s = "MO" -> Rd(FALSE, "MO", <<>>, DictOrNone(o.a), <<>>, Keyed(o.p))     \* OrderedDict subclass with attributes
+    [] o.s = "XS" -> Rd(TRUE, "XS", <<At(o.p[1])>>, DictOrNone(o.a), <<>>, <<>>)  \* int / str / float / bytes / complex subclass
     [] OTHER -> Rd(FALSE, "?", <<>>, VNone, <<>>, <<>>)
 
 HasSetstate(lab) == lab \in {"GS", "GT", "GV", "GC", "GL"}
-HasDict(lab)     == lab \in {"P", "PA", "SD", "GS", "GT", "GV", "GC", "GL", "NA", "R2", "R3", "RL", "RD", "CR", "ML", "MD", "MS", "OD"}
+HasDict(lab)     == lab \in {"P", "PA", "SD", "GS", "GT", "GV", "GC", "GL", "NA", "R2", "R3", "RL", "RD", "CR", "ML", "MD", "MS", "OD", "MO", "XS"}
+\* classes whose default reduction hands out the instance dictionary itself as the state (not a copy)
+OwnDictState(fn) == fn \in {"P", "PA", "NA", "ML", "MD", "MS", "XS"}
 
 (***************************************************************************)
 (* Class semantics, shared by H and L (both protocols call the same        *)
@@ -160,7 +165,8 @@ ClsNew(fn, new, args) ==
     [] fn \in {"make_r2", "make_cr", "R3"} /\ ~new ->
          SetAttrs(Empty(CASE fn = "make_r2" -> "R2" [] fn = "make_cr" -> "CR" [] OTHER -> "R3"),
                   [j \in DOMAIN args |-> <<PNames[j], args[j]>>])
-    [] fn \in {"RL", "RD"} /\ ~new -> IF args # <<>> THEN ERR("TypeError") ELSE Empty(fn)
+    [] fn \in {"RL", "RD", "MO"} /\ ~new -> IF args # <<>> THEN ERR("TypeError") ELSE Empty(fn)
+    [] fn = "XS" /\ new -> IF Len(args) # 1 \/ args[1].r # 0 THEN ERR("TypeError") ELSE [Empty("XS") EXCEPT !.dig = args[1].l]
     [] fn = "MS" /\ ~new -> IF Len(args) # 1 \/ args[1].t # "list" THEN ERR("TypeError")
                             ELSE [Empty("MS") EXCEPT !.dig = SetDig({args[1].e[j].l : j \in DOMAIN args[1].e})]
     [] fn = "OD" /\ ~new -> IF args = <<>> THEN Empty("OD")
@@ -195,7 +201,7 @@ ClsExtend(rec, items) ==
 
 \* instance[key] = value for each pair
 ClsSetItems(rec, ps) ==
-  CASE rec.lab \in {"MD", "OD"} -> SetItems(rec, ps)
+  CASE rec.lab \in {"MD", "OD", "MO"} -> SetItems(rec, ps)
     [] rec.lab = "RD" -> SetAttrs(rec, [j \in DOMAIN ps |-> <<DNames[KeyIndex(ps[j][1])], ps[j][2]>>])
     [] OTHER -> ERR("TypeError")
 
@@ -209,7 +215,7 @@ Canon(rec) ==
   LET soften(ks, b) == [j \in DOMAIN ks |-> [ks[j] EXCEPT !.soft = b]]
   IN [lab |-> rec.lab, dig |-> rec.dig,
       kids |-> soften(rec.pos, rec.lab = "list")
-               \o soften(IF rec.lab = "OD" THEN rec.dv ELSE SortBy(rec.dv, KeyOrder), rec.lab = "dict")
+               \o soften(IF rec.lab \in {"OD", "MO"} THEN rec.dv ELSE SortBy(rec.dv, KeyOrder), rec.lab = "dict")
                \o soften(SortBy(rec.at, AttrOrder), PlainRec(rec))]
 
 (***************************************************************************)
@@ -267,7 +273,10 @@ Scalar(l) == [k |-> IF l = "e" THEN "enum" ELSE "scalar", tag |-> ScalarTag(l), 
 
 \* SafeRepresenter.ignore_aliases: `isinstance(data, tuple) and data == ()` is also true of an empty instance of a
 \* tuple subclass (deviation "emptytuple"); the empty tuple itself is outside the generated space
-IgnoreAliases(o, fx) == "emptytuple" \notin fx /\ o.s \in {"NA"} /\ o.p = <<>>
+\* ... and `isinstance(data, (str, bytes, bool, int, float))` is also true of instances of their subclasses, which can
+\* carry attributes (deviation "scalarsub"; complex is not in that list)
+IgnoreAliases(o, fx) == \/ "emptytuple" \notin fx /\ o.s = "NA" /\ o.p = <<>>
+                        \/ "scalarsub" \notin fx /\ o.s = "XS" /\ o.p[1].l # "c"
 
 RECURSIVE RepVal(_, _, _), RepElems(_, _, _, _), RepPairs(_, _, _, _), RepObj(_, _, _)
 
@@ -294,12 +303,18 @@ RepVal(rs, g, v) ==
   IF v.t = "atom" THEN
      IF v.r = 0 THEN <<[rs EXCEPT !.ns = Append(@, Scalar(v.l))], Len(rs.ns) + 1>>
      ELSE RepObj(rs, g, v.r)
+  ELSE IF v.t = "sdict" THEN            \* the instance dictionary of object v.r, an object of its own for the alias table
+     IF rs.srep[v.r] # 0 THEN <<rs, rs.srep[v.r]>>
+     ELSE LET id  == Len(rs.ns) + 1
+              rs1 == [rs EXCEPT !.ns = Append(@, [k |-> "map", tag |-> "map", cls |-> "", l |-> "", e |-> <<>>]), !.srep[v.r] = id]
+              r   == RepPairs(rs1, g, v.e, <<>>)
+          IN  <<[r[1] EXCEPT !.ns[id].e = r[2]], id>>
   ELSE IF v.t = "list"  THEN RepSeq(rs, g, "seq", "", v.e, 0)
   ELSE IF v.t = "tuple" THEN RepSeq(rs, g, "tuple", "", v.e, 0)
   ELSE RepMap(rs, g, "map", "", v.e, 0)
 
 \* Representer.represent_object after the reduce call (representer.py:322-356)
-RepReduce(rs, g, rd, owner) ==
+RepReduce(rs, g, rd, owner, i) ==
   LET state0 == IF IsNoneV(rd.state) THEN VD(<<>>) ELSE rd.state          \* if state is None: state = {}
       isdict == state0.t = "dict"
       nostate == isdict /\ state0.e = <<>>
@@ -314,9 +329,10 @@ RepReduce(rs, g, rd, owner) ==
                   (IF rd.args # <<>> THEN << <<"args", VL(rd.args)>> >> ELSE <<>>)
                   \o (IF rd.di # <<>> THEN << <<"dictitems", VD(rd.di)>> >> ELSE <<>>)
                   \o (IF rd.li # <<>> THEN << <<"listitems", VL(rd.li)>> >> ELSE <<>>)
-                  \o (IF ~nostate THEN << <<"state", state0>> >> ELSE <<>>), owner)
+                  \o (IF ~nostate THEN << <<"state", IF isdict /\ OwnDictState(rd.fn)
+                                                              THEN [state0 EXCEPT !.t = "sdict", !.r = i] ELSE state0>> >> ELSE <<>>), owner)
 
-NReg(rs) == Cardinality({j \in DOMAIN rs.rep : rs.rep[j] # 0})
+NReg(rs) == Cardinality({j \in DOMAIN rs.rep : rs.rep[j] # 0}) + Cardinality({j \in DOMAIN rs.srep : rs.srep[j] # 0})
 RepObj(rs, g, i) ==
   LET o == g[i]
       noalias == IgnoreAliases(o, rs.fx)
@@ -334,11 +350,11 @@ RepObj(rs, g, i) ==
                       \* represent_ordered_dict: apply:OrderedDict [ [ [k, v], ... ] ]
                       [] o.s = "OD"    -> RepSeq(rs0, g, "apply", "OD",
                                                  <<VL([j \in DOMAIN o.p |-> VL(<<At(Lf(Keys[j])), At(o.p[j])>>)])>>, own)
-                      [] OTHER -> RepReduce(rs0, g, ReduceOf(o), own)
+                      [] OTHER -> RepReduce(rs0, g, ReduceOf(o), own, i)
            IN  <<[r[1] EXCEPT !.busy[i] = rs.busy[i]], r[2]>>
 
 Represent(g, fx) ==
-  LET r == RepObj([ns |-> <<>>, rep |-> [i \in DOMAIN g |-> 0], busy |-> [i \in DOMAIN g |-> 0], err |-> "", fx |-> fx], g, 1)
+  LET r == RepObj([ns |-> <<>>, rep |-> [i \in DOMAIN g |-> 0], srep |-> [i \in DOMAIN g |-> 0], busy |-> [i \in DOMAIN g |-> 0], err |-> "", fx |-> fx], g, 1)
   IN  [ns |-> r[1].ns, root |-> r[2], err |-> r[1].err]
 TagKind(t) == IF t \in {"seq", "map", "set", "safe"} THEN "safe" ELSE t
 TagsOf(ns) == {TagKind(ns[n].tag) : n \in DOMAIN ns}
@@ -373,7 +389,8 @@ Truthy(h, rv) ==
   IF rv.r = 0 THEN rv.l \notin FalsyLeaves
   ELSE LET o == h[rv.r] IN
        CASE o.lab \in {"list", "tuple", "ML", "NA", "NT"} -> o.pos # <<>>
-         [] o.lab \in {"dict", "MD", "OD"} -> o.dv # <<>>
+         [] o.lab \in {"dict", "MD", "OD", "MO"} -> o.dv # <<>>
+         [] o.lab = "XS" -> o.dig \notin FalsyLeaves
          [] o.lab \in {"set", "MS"} -> o.dig # SetDig({})
          [] OTHER -> TRUE
 
@@ -559,7 +576,8 @@ InDomain(g) ==
   \* itself would then hand over a half-filled list, depending on where the traversal started)
   /\ \A i \in DOMAIN g : g[i].s = "GL" => /\ g[i].p[1].r # 0 /\ g[g[i].p[1].r].s = "list"
                                            /\ i \notin GReach(g, {g[i].p[1].r}, {})
-  /\ \A i \in DOMAIN g : g[i].s = "GV" /\ g[i].p[1].r # 0 => g[g[i].p[1].r].s \notin {"dict", "MD", "OD"}
+  /\ \A i \in DOMAIN g : g[i].s = "GV" /\ g[i].p[1].r # 0 => g[g[i].p[1].r].s \notin {"dict", "MD", "OD", "MO"}
+  /\ \A i \in DOMAIN g : g[i].s = "XS" => g[i].p[1].r = 0 /\ g[i].p[1].l \in {"i", "i0", "s", "s0", "b", "c"}
 
 (***************************************************************************)
 (* Verdicts of H on what L computes.                                       *)
@@ -570,7 +588,7 @@ FullOk(g, fx)   == LET o == Load(g, fx, TRUE)  IN IF o.dumped THEN H!FullVerdict
 
 \* DEVIATIONS.  The smallest sets of repairs under which the design satisfies H on g; <<>> when H holds as it is,
 \* <<"unexplained">> when no combination of the named repairs helps.
-FixOrder == <<"deepreg", "slotsnone", "falsystate", "nonestate", "emptytuple", "latefill">>
+FixOrder == <<"deepreg", "slotsnone", "falsystate", "nonestate", "emptytuple", "latefill", "scalarsub">>
 AsSeq(F) == SelectSeq(FixOrder, LAMBDA x : x \in F)
 \* a repair can only matter on graphs that reach the code it changes (keeps the search small)
 Relevant(g) ==
@@ -580,6 +598,7 @@ Relevant(g) ==
   \cup (IF \E i \in DOMAIN g : g[i].s = "GV" /\ g[i].p[1] = Lf("z") THEN {"nonestate"} ELSE {})
   \cup (IF \E i \in DOMAIN g : g[i].s = "NA" /\ g[i].p = <<>> THEN {"emptytuple"} ELSE {})
   \cup (IF \E i \in DOMAIN g : g[i].s = "GL" THEN {"latefill"} ELSE {})
+  \cup (IF \E i \in DOMAIN g : g[i].s = "XS" THEN {"scalarsub"} ELSE {})
 Need(g, base) ==
   IF UnsafeOk(g, base).ok THEN <<>>
   ELSE LET cands == {F \in SUBSET (Relevant(g) \ base) : F # {} /\ UnsafeOk(g, base \cup F).ok}
@@ -602,13 +621,14 @@ KidSeqs(n, h, leafOnly) ==
               : x \in KidSeqs(n - 1, h, leafOnly)}
 
 AOnly  == {"P", "PA", "S", "SD", "GS"}
-TwoSec == {"NA", "R3", "RL", "ML", "MD"}
+TwoSec == {"NA", "R3", "RL", "ML", "MD", "MO"}
 \* allowed (np, na) for a shape with at most m kids
 Splits(s, m) ==
   CASE s \in AOnly  -> {<<0, na>> : na \in 0 .. m}
     [] s \in TwoSec -> {<<np, na>> \in (0 .. 1) \X (0 .. 1) : np + na <= m}
     [] s \in {"GV", "GL"} -> {<<1, 0>>}
     [] s = "tuple"  -> {<<np, 0>> : np \in 1 .. m}
+    [] s = "XS"     -> {<<1, na>> : na \in 0 .. (IF m = 0 THEN 0 ELSE m - 1)}
     [] s = "MS"     -> {<<np, na>> \in (0 .. 1) \X (0 .. 1) : np + na <= m}
     [] OTHER        -> {<<np, 0>> : np \in 0 .. m}
 
